@@ -715,6 +715,8 @@ pub fn unmanaged_scenarios(tier: Tier, with_close: bool) -> Vec<Scenario> {
     if !with_close {
         v.push(uconc("add-vs-get/new1", "add() racing with get(): object pushed before its permit is added", p, f, UBuild::New(1), vec![vec![a(), UOp::TryAdd], vec![g(), UOp::Release]]));
         v.push(uconc("return-vs-get/vec1", "an object is returned while another caller waits for it", p, f, UBuild::FromVec(1), vec![vec![g(), UOp::Release], vec![g(), UOp::Release]]));
+        v.push(uconc("try_add-vs-try_add/new1", "two try_add calls (and a blocking add) racing for the only free slot: exactly one object gets in", p, f, UBuild::New(1), vec![vec![UOp::TryAdd], vec![UOp::TryAdd], vec![a()]]));
+        v.push(uconc("try_add-vs-add-after-take/vec2", "a slot freed by take() is claimed by try_add and add at once", p, f, UBuild::FromVec(2), vec![vec![UOp::TryGet, UOp::Take], vec![UOp::TryAdd], vec![a()]]));
         v.push(uconc("take-vs-take/vec2", "two objects taken out of a full pool on two threads at once, each then put back with try_add: both slots must be free again", p, f, UBuild::FromVec(2), vec![vec![UOp::TryGet, UOp::Take, UOp::TryAdd], vec![UOp::TryGet, UOp::Take, UOp::TryAdd]]));
         v.push(uconc("remove-vs-remove/vec2", "try_remove on two threads at once, then the pool is refilled", p, f, UBuild::FromVec(2), vec![vec![UOp::TryRemove, UOp::TryAdd], vec![UOp::TimeoutRemove0, UOp::TryAdd]]));
         v.push(uconc("take-vs-add-waiting/vec1", "take() frees a slot while add() waits for one", p, f, UBuild::FromVec(1), vec![vec![g(), UOp::Take], vec![a(), UOp::TryAdd]]));
